@@ -236,7 +236,25 @@ def literal_constants(mir):
                 consts.append(m.group(1))
         if idx is not None and consts:
             out[idx] = consts[-1]
-    return out
+    # resolve promoted atom constants to their index
+    res = {}
+    for k, v in out.items():
+        if isinstance(k, tuple) and k[0] == "promoted":
+            m = re.search(r"promoted\[(\d+)\]", k[1])
+            ai = None
+            for i, l in enumerate(mir.lines):
+                if l.startswith("const ") and "push_literal::promoted[%s]" % m.group(1) in l:
+                    for l2 in mir.lines[i:i + 12]:
+                        m2 = re.search(r"atom_table::Atom \{ index: const (\d+)_u64 \}", l2)
+                        if m2:
+                            ai = int(m2.group(1))
+                    break
+            if ai is None:
+                raise core.Unsupported("cannot resolve %s" % k[1])
+            res[ai] = v
+        else:
+            res[k] = v
+    return res
 
 
 def runtime_constants(mir):
@@ -320,7 +338,20 @@ def run(thorough=False):
     lines.append("(define-fun kc () Int %s)" % kc)
     lines.append("(define-fun kr () Int %s)" % kr)
     lines.append("(assert (not (= kc kr)))")
-    br = smt.check_batch(["\n".join(lines)], thorough=thorough, getvals=[["f"]])
+    try:
+        lc0, rc0 = literal_constants(mir), runtime_constants(mir)
+    except core.Unsupported as e:
+        log("  mirsmt C03: constants not extracted (%s)" % e)
+        return {"exit": EXIT_INCONCLUSIVE, "mirsmt_error": str(e)}
+    ck = sorted(set(lc0) | set(rc0))
+    cid = {}
+    ca = cb = "0"
+    for i, k in enumerate(ck):
+        ca = "(ite (= g %d) %d %s)" % (i, cid.setdefault(lc0.get(k), len(cid) + 1), ca)
+        cb = "(ite (= g %d) %d %s)" % (i, cid.setdefault(rc0.get(k), len(cid) + 1), cb)
+    qc = "(declare-const g Int)\n(assert (and (>= g 0) (< g %d)))\n(assert (not (= %s %s)))" % (
+        max(1, len(ck)), ca, cb)
+    br = smt.check_batch(["\n".join(lines), qc], thorough=thorough, getvals=[["f"], ["g"]])
     diffs = []
     for k in keys:
         c, r = comp.get(k), run_.get(k)
@@ -330,8 +361,20 @@ def run(thorough=False):
                           "runtime": sorted(map(str, r)) if r else None,
                           "variant": c and c["variant"], "handler": c and c["handler"],
                           "args_ok": c and c["args_ok"], "fields_ok": c and c["fields_ok"]})
+    try:
+        lc, rc = literal_constants(mir), runtime_constants(mir)
+    except core.Unsupported as e:
+        log("  mirsmt C03: constants not extracted (%s)" % e)
+        return {"exit": EXIT_INCONCLUSIVE, "mirsmt_error": str(e)}
+    for k in sorted(set(lc) | set(rc)):
+        if lc.get(k) != rc.get(k):
+            diffs.append({"functor": core.atom_text(k, strs), "arity": 0,
+                          "compiled": lc.get(k), "runtime": rc.get(k)})
     nul = sorted(core.atom_text(i, strs) for i in rt.get(0, {}))
     ans = br["results"][0]["answer"] if br["results"] else None
+    ansc = br["results"][1]["answer"] if br["results"] else None
+    if ans is not None and ansc == "sat":
+        ans = "sat"
     log("  mirsmt C03: %d binary + %d unary functors compiled, %d + %d at run time, nullary %s; "
         "query %s, %d differences (z3 %.2fs)" % (
             sum(1 for k in comp if k[0] == 2), sum(1 for k in comp if k[0] == 1),
